@@ -199,6 +199,10 @@ def check_C13(tier, seed):
     scns = families.nonmutator_calls(seed, 2500 if quick else 20000)
     cases = engine.run_family(rep, scns)
     engine.judge_cases(rep, cases, devs, what='builtin call')
+    # every table entry x every pair of host values of every plain type and shape (sampled in the quick tier)
+    scns = families.builtin_matrix(seed, 2500 if quick else None)
+    cases = engine.run_family(rep, scns)
+    engine.judge_cases(rep, cases, devs, what='builtin x argument matrix')
     return rep.finish()
 
 
